@@ -247,6 +247,11 @@ def register(T, repo):
                           'toks': tm.DocList(G['src'])},
         result=lambda A: StrS(name='text'),
         # not proved (needs 'empty buffer gives empty expansion'):
+        # query purity: the flows collected so far are unchanged (C03)
+        ensures=[('flows-unchanged', lambda A, r: zint(
+            A['self'].fields['extracted'].length()) ==
+            zint(A['old']['nflows']))],
+        olds=lambda A: {'nflows': A['self'].fields['extracted'].length()},
         assumed_ensures=[('text of an empty token list is empty',
                           lambda A, r: Implies(zint(A['toks'].length()) == 0,
                                                zint(seq_len(r)) == 0))],
@@ -640,6 +645,38 @@ def register(T, repo):
     c.loop(1).invs.append(('true', lambda E: True))
     loop_parser_shapes(c.loop(0), buf=None)
     loop_parser_shapes(c.loop(1), buf=None)
+
+    # the flows collected so far are never dropped by the expander: the
+    # list only grows (needed for the purity of get_text_expanded)
+    def add_flows_grow(c, who='self'):
+        prev = c.olds
+
+        def olds(A, prev=prev):
+            d = dict(prev(A)) if prev else {}
+            d['nflows0'] = A[who].fields['extracted'].length()
+            return d
+        c.olds = olds
+        c.ensures.append(('flows-only-grow', lambda A, r: zint(
+            A[who].fields['extracted'].length()) >=
+            zint(A['old']['nflows0'])))
+    for nm in ('expand_sequence', 'expand_macro', 'expand_arguments',
+               'expand_accent', 'begin_environment', 'end_environment',
+               'expand_item', 'parse_def_macro', 'get_environment_name',
+               'parse_keyvals_list', 'expand_keyvals', 'parse_keyvals_dict',
+               'modify_parameters', 'init_package'):
+        add_flows_grow(T.get(PAR + nm))
+    T.add_flows_grow = add_flows_grow
+    add_flows_grow(pm.H, 'parser')
+    add_flows_grow(pm.H_END, 'parser')
+    for nm in ('expand_inline_math', 'expand_display_math'):
+        cc = T.get('yalafi.mathparser.MathParser.' + nm)
+        prevo = cc.olds
+        cc.olds = (lambda A, prevo=prevo: dict(
+            (prevo(A) if prevo else {}),
+            nflows0=A['self'].fields['parser'].fields['extracted'].length()))
+        cc.ensures.append(('flows-only-grow', lambda A, r: zint(
+            A['self'].fields['parser'].fields['extracted'].length()) >=
+            zint(A['old']['nflows0'])))
 
     # --------------------------------------------- remove_pure_action_lines
     RPA = PAR + 'remove_pure_action_lines'
